@@ -23,12 +23,14 @@ meta = {'property': ID[:3], 'seed_id': ID, 'files_changed': files, 'demo_cmd': d
 sh('git checkout -- . && git clean -fdq -e _seed', WT)
 rc0, o0 = sh(demo, WT)
 meta['ran'].append({'what': 'demo on pristine scratch worktree', 'exit': rc0})
+sh('git checkout -- . && git clean -fdq -e _seed', WT)
 rc, o = sh('git apply _seed/patch.diff', WT); assert rc == 0, o
 rcb, ob = sh('go build ./...', WT)
 rcs, os_ = sh('go test -vet=off -count=1 ./... 2>&1 | grep -v "no test files"', WT)
 suite_ok = rcb == 0 and 'FAIL' not in os_
 meta['ran'].append({'what': 'go build + existing suite with the change (scratch worktree)', 'ok': suite_ok})
 rc1, o1 = sh(demo, WT)
+sh('git clean -fdq -e _seed', WT)
 meta['ran'].append({'what': 'demo with the change (scratch worktree)', 'exit': rc1})
 meta['confirmed'] = (rc0 == 0 and rc1 != 0 and suite_ok)
 print(f"{ID}: demo pristine exit={rc0}, suite with change ok={suite_ok}, demo with change exit={rc1} -> confirmed={meta['confirmed']}")
